@@ -187,7 +187,7 @@ class Exec:
                 if st_.get("_repeat") and self.last_vec is not None:
                     out.check(torch.equal(rec.calls[0][1], self.last_vec), "repeat-gives-different-update", label)
                 self.last_vec = rec.calls[0][1]
-        tol = jdcheck.DERIV_TOL[self.dtype] * max(1.0, self.scale) * max(1, len(prog["losses"]))
+        tol = jdcheck.deriv_tol(self.dtype, self.scale) * max(1, len(prog["losses"]))
         for p, upd in task_upd.items():
             leaf = g.leaves[p]
             if not out.check(leaf.grad is not None, "task-grad-missing", f"{label}: leaf {p}"):
@@ -216,7 +216,7 @@ def run_case(case) -> Outcome:
     out = Outcome()
     prog = case["prog"]
     ex = Exec(prog, out)
-    if not ex.scale < 1e6:
+    if not jdcheck.scale_ok(prog["dtype"], ex.scale):
         out.excluded = "values-or-tangents-exceed-1e6"
         return out
     for st_ in case["steps"]:
@@ -240,7 +240,7 @@ def _machine(report):
         def build(self, prog):
             self.prog = prog
             self.ex = Exec(prog, self.out)
-            if not self.ex.scale < 1e6:
+            if not jdcheck.scale_ok(prog["dtype"], self.ex.scale):
                 self.ex.dead = True
                 self.out.excluded = "values-or-tangents-exceed-1e6"
 
